@@ -282,6 +282,9 @@ impl Run<'_> {
         // decoders that can abort the process on arbitrary bytes: only truncate (any other edit can
         // shift the parse and turn arbitrary bytes into a 64-bit length)
         let truncate_only = self.abort_prone.contains(e.name);
+        if std::env::var("C05_DEBUG_MIN").is_ok() {
+            eprintln!("minimise {} {} base {} truncate_only {} abort_prone {:?}", e.name, kind, vmon_core::hex_short(&base, 40), truncate_only, self.abort_prone);
+        }
         let min = util::minimise(&base, same, if kind == "alloc-bound" { 8000 } else if e.heavy || long { 1500 } else { 20000 }, !(e.heavy || long) || kind == "alloc-bound", kind == "alloc-bound", truncate_only);
         // attribute the violation to the innermost registered decoder that shows it on a
         // suffix of the witness (the same leaf defect surfaces in every enclosing type)
